@@ -134,7 +134,8 @@ func LooksLikeModbusTCP(data []byte, allowUnSupportedFunctionCodes bool) (expect
 		return 0, ErrIsNotTCPPacket
 	}
 	pduLen := binary.BigEndian.Uint16(data[4:6]) // number of bytes in the message to follow
-	if pduLen < 3 {                              // every request is more than 2 bytes of PDU
+	// every request is more than 2 bytes of PDU, except Read Server ID (FC17) which has no body
+	if pduLen < 3 && !(pduLen == 2 && data[7] == FunctionReadServerID) {
 		return 0, ErrIsNotTCPPacket
 	}
 	functionCode := data[7] // function code
